@@ -44,9 +44,14 @@ class ErrorInfo(json_conversion.JSONConvertible, formatting.Formattable):
   @classmethod
   def _compute_tag(cls, error: BaseException):
     error_types = []
-    while error is not None:
+    seen = set()
+    while isinstance(error, BaseException) and id(error) not in seen:
+      seen.add(id(error))
       error_types.append(error.__class__.__name__)
-      error = getattr(error, 'cause', error.__cause__)
+      cause = getattr(error, 'cause', None)
+      if not isinstance(cause, BaseException):
+        cause = error.__cause__
+      error = cause
     return '.'.join(error_types)
 
   @classmethod
